@@ -263,7 +263,8 @@ def _pptdef_case(draw):
     return {
         "d": d,
         "sys": draw(st.integers(1, nparty)),
-        "tol": draw(st.sampled_from([None, None, 1e-12, 1e-10, 1e-8, 1e-6, 1e-4, 1e-2])),
+        # 0.0: an explicit zero tolerance must stay zero (seeded change C15-t1, `tol = tol or sqrt(eps)`, was missed)
+        "tol": draw(st.sampled_from([None, None, 1e-12, 1e-10, 1e-8, 1e-6, 1e-4, 1e-2, 0.0])),
         "rel": draw(st.sampled_from(REL)),
         "core": draw(st.sampled_from(["pure", "maxent"])),
         "noise": draw(st.sampled_from(["id", "id", "sep"])),
@@ -280,6 +281,8 @@ def _pptdef_state(case):
     g = gen.rng(case["seed"])
     cplx = case["cplx"]
     tol_eff = case["tol"] if case["tol"] is not None else SQRT_EPS
+    if tol_eff == 0:
+        tol_eff = 1e-10  # targets for an explicit zero tolerance: -1e-9 ... -1e-7 ("out"), unasserted noise-level values ("in")
     kind, _, val = case["rel"].partition(":")
     if kind == "zero":
         # a product vector: lambda_min of every partial transpose is 0 up to rounding
@@ -328,7 +331,15 @@ def check_ppt_definition(case):
     got_npt = bool(is_npt(rho, case["sys"], _ppt_dim_arg(case), tol))
     if got_npt == got:
         raise Violation(f"is_npt = {got_npt} and is_ppt = {got} on the same arguments", "is_npt!=not is_ppt")
-    if lam >= -tol_eff / 10:
+    if tol_eff == 0:
+        # exact threshold: asserted only clear of eigenvalue rounding noise
+        if lam >= 1e-10:
+            exp = True
+        elif lam <= -5e-10:
+            exp = False
+        else:
+            return
+    elif lam >= -tol_eff / 10:
         exp = True
     elif lam <= -10 * tol_eff:
         exp = False
